@@ -36,42 +36,7 @@ func checkC10(p *Prog, r *Report) {
 	approvalCleanupRule(p, r, "R9")
 	r.Rule("R10", "a list field whose slice header a getter hands out (callers iterate it without the lock) is never modified in place: no element store, no copy into it, no in-place library routine (slices.DeleteFunc, sort.Slice, …); removal builds a new slice")
 	escapedListsImmutable(p, ls, r, "R10", nil)
-	r.Rule("R2", "a function that drops all pending approvals of a peer stops their timers first, in the same critical section")
-	nDrop := 0
-	for _, fn := range ls.fns {
-		if isWrapper(fn) {
-			continue
-		}
-		for _, a := range ls.accessesIn(F("FeatureLocal.pendingWriteApprovals"), fn) {
-			del, ok := a.Ins.(*ssa.Call)
-			if !ok || builtinName(&del.Call) != "delete" || !loadsFieldDirect(del.Call.Args[0], a.Field) {
-				continue // only deletions of a whole peer entry (outer map)
-			}
-			nDrop++
-			// the timers of the peer entry: everything derived from the look-up of the outer map with the deleted key
-			var taint map[ssa.Value]bool
-			for _, b := range fn.Blocks {
-				for _, ins := range b.Instrs {
-					if lk, isLk := ins.(*ssa.Lookup); isLk && loadsFieldDirect(lk.X, a.Field) && Path(lk.Index) == Path(del.Call.Args[1]) {
-						taint = forwardTaint(lk)
-					}
-				}
-			}
-			var stop *ssa.Call
-			forEachCall(fn, func(site ssa.CallInstruction) {
-				c, ok := site.(*ssa.Call)
-				if !ok || taint == nil {
-					return
-				}
-				if callee := c.Call.StaticCallee(); callee != nil && fnPkgPath(callee) == "time" && callee.Name() == "Stop" && taint[c.Call.Args[0]] {
-					stop = c
-				}
-			})
-			ok = stop != nil && cyclic(stop.Block()) && len(ls.CommonSections(stop, del)) > 0 && blockReaches(stop.Block(), del.Block()) && !blockReaches(del.Block(), stop.Block())
-			r.Check("R2", FnName(fn)+"|stops-timers", ok, p.InstrPos(del), "every timer of the dropped peer entry is stopped before the entry is deleted, under the same lock")
-		}
-	}
-	r.Floor("R2", "functions dropping pending approvals of a peer", nDrop, 1)
+	timersStoppedRule(p, ls, r, "R2")
 
 	r.Rule("R3", "RemoveRemoteDevice removes the peer's subscriptions and bindings, deletes it from the device map under the lock, and cleans approval and client-side caches of every feature of every local entity — each step unconditional once the device was found; the per-device registry removals visit every entity of the device")
 	c10Teardown(p, ls, r)
@@ -423,4 +388,44 @@ func approvalCleanupRule(p *Prog, r *Report, rule string) {
 		}
 	}
 	r.Floor(rule, "implementations of the per-peer clean-up", n, 1)
+}
+
+// timersStoppedRule: shared by C10 (teardown) and C01 (no stale timeout answers a later write).
+func timersStoppedRule(p *Prog, ls *Lockset, r *Report, rule string) {
+	r.Rule(rule, "a function that drops all pending approvals of a peer stops their timers first, in the same critical section")
+	nDrop := 0
+	for _, fn := range ls.fns {
+		if isWrapper(fn) {
+			continue
+		}
+		for _, a := range ls.accessesIn(F("FeatureLocal.pendingWriteApprovals"), fn) {
+			del, ok := a.Ins.(*ssa.Call)
+			if !ok || builtinName(&del.Call) != "delete" || !loadsFieldDirect(del.Call.Args[0], a.Field) {
+				continue // only deletions of a whole peer entry (outer map)
+			}
+			nDrop++
+			// the timers of the peer entry: everything derived from the look-up of the outer map with the deleted key
+			var taint map[ssa.Value]bool
+			for _, b := range fn.Blocks {
+				for _, ins := range b.Instrs {
+					if lk, isLk := ins.(*ssa.Lookup); isLk && loadsFieldDirect(lk.X, a.Field) && Path(lk.Index) == Path(del.Call.Args[1]) {
+						taint = forwardTaint(lk)
+					}
+				}
+			}
+			var stop *ssa.Call
+			forEachCall(fn, func(site ssa.CallInstruction) {
+				c, ok := site.(*ssa.Call)
+				if !ok || taint == nil {
+					return
+				}
+				if callee := c.Call.StaticCallee(); callee != nil && fnPkgPath(callee) == "time" && callee.Name() == "Stop" && taint[c.Call.Args[0]] {
+					stop = c
+				}
+			})
+			ok = stop != nil && cyclic(stop.Block()) && len(ls.CommonSections(stop, del)) > 0 && blockReaches(stop.Block(), del.Block()) && !blockReaches(del.Block(), stop.Block())
+			r.Check(rule, FnName(fn)+"|stops-timers", ok, p.InstrPos(del), "every timer of the dropped peer entry is stopped before the entry is deleted, under the same lock")
+		}
+	}
+	r.Floor(rule, "functions dropping pending approvals of a peer", nDrop, 1)
 }
